@@ -1249,6 +1249,86 @@ func directed(handlers []string) [][]op {
 	return all
 }
 
+// sameStoreOverlap: while request A (store S) is inside bootstrapCluster - parked at its transaction - two more requests
+// arrive that carry the SAME store id: C malformed (its region has a key range) and B valid but with another first region and
+// peer (a second process started on a cloned data directory). Each request is answered for what IT carries: C is refused
+// as invalid, at most one of A and B is answered OK, and the stored first region is the one of the request answered OK. A
+// request that waits for A instead of being handled (coalesced with it) and is then handed A's answer is reported.
+func (w *world) sameStoreOverlap(caseNo int) {
+	w.reset(caseNo)
+	a := op{K: "begin", T: 0, PK: "valid", N: 1}
+	w.regionIDs = append(w.regionIDs, 2001, 2002, 2003)
+	if ob := w.startBoot(a, true); ob != "BStarted" {
+		w.R.Notes = append(w.R.Notes, "same-store overlap scenario skipped: request A answered "+ob)
+		return
+	}
+	same := func(o op) *pdpb.BootstrapRequest {
+		req := o.request(w.header(""))
+		req.Store.Id = 1001
+		for _, p := range req.GetRegion().GetPeers() {
+			p.StoreId = 1001
+		}
+		return req
+	}
+	type late struct {
+		name string
+		ch   chan bres
+		ob   string
+		held bool
+	}
+	send := func(name string, req *pdpb.BootstrapRequest) *late {
+		l := &late{name: name, ch: make(chan bres, 1)}
+		go func() {
+			r, err := w.x.S.Bootstrap(w.ctx, req)
+			l.ch <- bres{r, err}
+		}()
+		select {
+		case r := <-l.ch:
+			l.ob = bootObs(r)
+		case <-time.After(700 * time.Millisecond):
+			l.held = true // not handled on its own: it waits for the request in flight
+		}
+		return l
+	}
+	c := send("C (store 1001, region 2003 with a key range)", same(op{K: "boot", PK: "startkey", N: 3}))
+	b := send("B (store 1001, region 2002, peer 3002)", same(op{K: "boot", PK: "valid", N: 2}))
+	obA := w.exec(op{K: "finish", T: 0})
+	for _, l := range []*late{c, b} {
+		if l.held {
+			select {
+			case r := <-l.ch:
+				l.ob = bootObs(r)
+			case <-time.After(60 * time.Second):
+				panic("overlapping bootstrap request never returned")
+			}
+		}
+	}
+	trace := []string{"A (store 1001, region 2001) parked at its transaction", c.name + " -> " + c.ob, b.name + " -> " + b.ob, "A released -> " + obA, "records " + w.view()}
+	oks := 0
+	for _, ob := range []string{obA, b.ob, c.ob} {
+		if ob == "BOk" {
+			oks++
+		}
+	}
+	switch {
+	case c.ob == "BOk":
+		w.R.Violate("C20:malformed-request-accepted:answer-shared-with-the-request-in-flight",
+			"a Bootstrap request that checkBootstrapRequest refuses was answered OK because it arrived while another request of the same store was in flight", trace)
+	case oks > 1:
+		w.R.Violate("C20:bootstrapped-twice:answer-shared-with-the-request-in-flight",
+			fmt.Sprintf("%d overlapping Bootstrap requests with the same store id and different first regions were answered OK", oks), trace)
+	case c.held || b.held:
+		w.R.Violate("C20:bootstrap-request-not-handled-on-its-own", "a Bootstrap request waited for another request's bootstrapCluster instead of being handled", trace)
+	}
+	if oks == 1 {
+		want := map[bool]string{true: "[2001%Z]", false: "[2002%Z]"}[obA == "BOk"]
+		if v := w.view(); !strings.Contains(v, "[1001%Z] "+want) {
+			w.R.Violate("C20:stored-records-not-from-the-acknowledged-request", "same store id, two first regions: stored "+v+", acknowledged region "+want, trace)
+		}
+	}
+	w.R.Count("same-store-overlap:A=" + obA + ",B=" + b.ob + ",C=" + strings.Fields(c.ob)[0])
+}
+
 // thorough tier: a real leader change (the leadership is reset, the member steps down, stops its raft
 // cluster, campaigns again and reloads the cluster from etcd) and a real restart of the member on the same
 // data directory. Bootstrap must stay refused, the records and the cluster id must be the same.
@@ -1493,10 +1573,15 @@ func main() {
 		runFixed([]op{{K: "boot", T: 0, PK: "valid"}, {K: "isboot"}, {K: "lcfault"}, {K: "isboot"}, {K: "getcfg"}, {K: "call", H: "GetStore"},
 			{K: "boot", T: 1, PK: "valid"}, {K: "isboot"}}, "directed:leader-change-with-read-fault")
 	}
+	if *replay == "" {
+		w.sameStoreOverlap(caseNo)
+		caseNo++
+	}
 	w.reset(caseNo)
 	if *replay == "" {
 		// last, because three more servers in the process disturb the timing of everything else
 		t0 := time.Now()
+		foreignPeerURL = w.x.S.GetConfig().AdvertisePeerUrls
 		cleanupCluster := clusterPhase(R, true)
 		cleanupCluster()
 		R.Notes = append(R.Notes, fmt.Sprintf("cluster phase (3 real members, concurrent start, 4 concurrent Bootstrap requests, restart of all, close): %.1fs", time.Since(t0).Seconds()))
